@@ -307,6 +307,19 @@ func (x *fnv) applyContract(s *State, fc *FuncContract, declSig *types.Signature
 	for _, g := range fc.Ghosts {
 		post.vars[g.Name] = x.h.freshValue(s, post.resolveType(g.Type), "ghost_"+g.Name)
 	}
+	if fc.Trusted && len(fc.Ensures) > 0 {
+		why := ""
+		if len(fc.Notes) > 0 {
+			why = " (" + fc.Notes[0] + ")"
+		}
+		x.assumeNote("trusted contract of " + qname + ": its postconditions are assumed, its body is not verified" + why)
+	}
+	if fc.Abstract && len(fc.Ensures) > 0 {
+		x.assumeNote("contract of interface method / function-valued field " + qname + " is assumed at this call (the implementations in the tree are verified separately; the refinement step is by inspection)")
+	}
+	if len(fc.Skip) > 0 && fc.Skip["post"] && len(fc.Ensures) > 0 {
+		x.assumeNote("postconditions of " + qname + " are trusted (its contract skips `post`)")
+	}
 	useEnsures := true
 	if x.fc != nil && x.fc.Uses != nil && !x.fc.Uses[short] {
 		useEnsures = false // the caller's contract says it does not rely on this callee's postconditions
